@@ -162,7 +162,7 @@ def cargo_build():
     lock_src = os.path.join(REPO, "Cargo.lock")
     if os.path.exists(lock_src):
         shutil.copyfile(lock_src, os.path.join(HARNESS, "Cargo.lock"))
-    env = dict(ENV, BROTLI_VERIF_SHIM=os.path.join(HARNESS, "shim", "sched.rs"))
+    env = dict(ENV, CARGO_TARGET_DIR=os.path.join(CACHE, "target"))
     rc, out, dt = sh(["cargo", "build", "--release", "--offline"], cwd=HARNESS, timeout=3600, env=env)
     return rc, out, dt
 
